@@ -2,7 +2,7 @@
    ONNX specification of Conv. The test data are integer valued, so float32 arithmetic is exact
    and the geometry is compared exactly. *)
 From Coq Require Import List ZArith Bool Lia String.
-From V Require Import DType Tensor Case.
+From V Require Import DType Tensor Case Writes ConvLoop.
 Import ListNotations.
 Open Scope Z_scope.
 
@@ -70,6 +70,22 @@ Definition conv_with (cf : cfg) (x k : tval) (bias : option tval) (pads : nat ->
 Definition conv_spec (cf : cfg) (x k : tval) (bias : option tval) : tval :=
   conv_with cf x k bias (onnx_pads cf x k) (fun _ _ => true).
 
+(* getDilatedKernel: a zero kernel of the dilated extents, every old tap copied to coordinate * dilation *)
+Definition dilate (k : tensor Z) (ds : list nat) : tensor Z :=
+  let s := tshape k in
+  let ns := firstn 2 s ++ map (fun p => (snd p + (snd p - 1) * (fst p - 1))%nat) (combine ds (skipn 2 s)) in
+  tabulate ns (fun i =>
+    let sp := combine ds (skipn 2 i) in
+    if forallb (fun p => (snd p mod fst p =? 0)%nat) sp
+    then get 0 k (firstn 2 i ++ map (fun p => (snd p / fst p)%nat) sp) else 0).
+
+Definition add_bias (t : tensor Z) (bias : option tval) : tensor Z :=
+  match bias with
+  | None => t
+  | Some bt => tabulate (tshape t) (fun i => get 0 t i + nth (nth 1 i 0%nat) (pl bt) 0)
+  end.
+
+(* Apply: defaults, dilation, auto_pad, the 1-D / 2-D loop nest (Model/ConvLoop.v), bias *)
 Definition conv_model (cf : cfg) (x k : tval) (bias : option tval) : mres tval :=
   let n := nsp x in
   if negb ((n =? 1)%nat || (n =? 2)%nat) then MErr
@@ -83,5 +99,17 @@ Definition conv_model (cf : cfg) (x k : tval) (bias : option tval) : mres tval :
     (* getSubImage / kernel.Slice: sliced axes of extent 1 are dropped; ranks must agree for the unidirectional broadcast *)
     else if negb (forallb (fun e => 2 <=? e) ks || (C * fold_right Z.mul 1 ks =? 1)) then MErr
     else
-      (* the loop nests visit every output index: (OH-1)*s <= Hp - kext < Hp *)
-      MOk (conv_with cf x k bias pads (fun _ _ => true)).
+      let d := fun i => Z.to_nat (dil cf i) in
+      let s := fun i => Z.to_nat (str cf i) in
+      let e := fun l i => nth i l 0%nat in
+      let kd := dilate (tzc k) (map d (seq 0 n)) in
+      let p := fun i => Z.to_nat (fst (pads i)) in
+      let q := fun i => Z.to_nat (snd (pads i)) in
+      let out :=
+        if (n =? 1)%nat
+        then conv1d_loop 0 Z.add Z.mul (e (sh x) 0%nat) (e (sh x) 1%nat) (e (sh x) 2%nat) (e (sh k) 0%nat) (e (tshape kd) 2%nat)
+                         (p 0%nat) (q 0%nat) (s 0%nat) (tzc x) kd
+        else conv2d_loop 0 Z.add Z.mul (e (sh x) 0%nat) (e (sh x) 1%nat) (e (sh x) 2%nat) (e (sh x) 3%nat) (e (sh k) 0%nat)
+                         (e (tshape kd) 2%nat) (e (tshape kd) 3%nat) (p 0%nat) (p 1%nat) (q 0%nat) (q 1%nat) (s 0%nat) (s 1%nat) (tzc x) kd in
+      let r := add_bias out bias in
+      MOk {| dt := dt x; sh := tshape r; pl := tdata r |}.
